@@ -15,7 +15,7 @@ from ..model import FunctionInfo, AnalysisError, dotted
 from ..pat import Snips
 from ..report import Ctx
 from ..tensor import Typer
-from ..util import norm, fn_body_nodes, walk_local, kwarg
+from ..util import zero_test, atomic_facts, norm, fn_body_nodes, walk_local, kwarg
 from .common import arg_permutation_rule, names_in, calls_named
 
 EXPLANATION = (
@@ -106,7 +106,7 @@ def rule_filter(ctx: Ctx):
     if dc:
         tn = [e.id for e in dc[0].generators[0].target.elts]
         ctx.check(ast.unparse(dc[0].key) == tn[0] and isinstance(dc[0].value, ast.BinOp) and ast.unparse(dc[0].value.left) == tn[1], "NORM-1", f, dc[0], "filter: key/mass pairing preserved", "", "posterior pairs keys with the wrong masses")
-    z = [n for n in fn_body_nodes(f) if isinstance(n, ast.If) and isinstance(n.test, ast.Compare) and ast.unparse(n.test.left) == tv and isinstance(n.test.ops[0], ast.Eq)]
+    z = [n for n in fn_body_nodes(f) if isinstance(n, ast.If) and zero_test(n.test, tv) == "zero"]
     ok = bool(z) and any(isinstance(b2, ast.Return) and "{}" in ast.unparse(b2) for b2 in z[0].body)
     ctx.check(ok, "NORM-1", f, z[0] if z else f.node, "filter: impossible observation -> empty distribution", "", "zero total mass is not mapped to the empty distribution")
     if z and dc:
@@ -313,13 +313,11 @@ def rule_obs_zero_prob(ctx: Ctx, fi: FunctionInfo, dist_method: str, list_attr: 
             ok = False
             for g in cfg.nodes:
                 if g.kind == "if" and any(g.ast is x for x in ast.walk(lp)):
-                    t = g.ast.test
-                    if isinstance(t, ast.Compare) and len(t.ops) == 1 and isinstance(t.left, ast.Name) and t.left.id == prob:
-                        zero_cmp = isinstance(t.comparators[0], ast.Constant) and not isinstance(t.comparators[0].value, bool) and t.comparators[0].value == 0
-                        if zero_cmp and isinstance(t.ops[0], ast.Eq) and any(isinstance(b, ast.Continue) for b in g.ast.body):
-                            ok = ok or (g.id != node and cfg.dominates(g.id, node))          # `if p == 0: continue` before the lookup
-                        if zero_cmp and isinstance(t.ops[0], (ast.Gt, ast.NotEq)) and any(lk is x for b in g.ast.body for x in ast.walk(b)):
-                            ok = True                                                       # lookup inside `if p > 0:`
+                    zt = zero_test(g.ast.test, prob)
+                    if zt == "zero" and any(isinstance(b, ast.Continue) for b in g.ast.body):
+                        ok = ok or (g.id != node and cfg.dominates(g.id, node))          # `if p == 0: continue` before the lookup
+                    if zt == "nonzero" and any(lk is x for b in g.ast.body for x in ast.walk(b)):
+                        ok = True                                                       # lookup inside `if p > 0:`
             ctx.check(ok, rule, fi, lk, f"{list_attr} lookup of the enumerated key happens only for non-zero probability", "",
                       f"`{norm(lk)}` is evaluated before / without the zero-probability filter: an entry listed with probability 0 need not be in "
                       f"the inferred {list_attr} (it collects positive-probability entries only) and the lookup raises")
@@ -436,8 +434,12 @@ def rule_belief_mdp(ctx: Ctx):
     ab = C.methods["is_absorbing"]
     src_ab = ast.unparse(ab.node)
     ifs = [n for n in ast.walk(ab.node) if isinstance(n, ast.If)]
-    ok = bool(ifs) and isinstance(ifs[0].test, ast.BoolOp) and isinstance(ifs[0].test.op, ast.And) and "> 0" in ast.unparse(ifs[0].test) \
-        and "not self.pomdp.is_absorbing" in ast.unparse(ifs[0].test) and any(isinstance(b2, ast.Return) and ast.unparse(b2.value) == "False" for b2 in ifs[0].body)
+    zl = [l for l in ast.walk(ab.node) if isinstance(l, ast.For) and isinstance(l.target, ast.Tuple) and len(l.target.elts) == 2 and all(isinstance(e_, ast.Name) for e_ in l.target.elts)]
+    stv, prv = [e_.id for e_ in zl[0].target.elts] if zl else (None, None)
+    facts = atomic_facts([(ifs[0].test, "T")]) if ifs else set()
+    ok = bool(ifs) and bool(zl) and isinstance(ifs[0].test, ast.BoolOp) and isinstance(ifs[0].test.op, ast.And) \
+        and any(zero_test(v_, prv) == "nonzero" for v_ in ifs[0].test.values) \
+        and (f"self.pomdp.is_absorbing({stv})", False) in facts and any(isinstance(b2, ast.Return) and ast.unparse(b2.value) == "False" for b2 in ifs[0].body)
     ctx.check(ok, "BMDP-4", ab, ifs[0] if ifs else ab.node, "belief is non-absorbing iff some positive-mass state is non-absorbing", "", "absorption test is not `exists state with prob > 0 and not absorbing -> False`")
     rets = [n for n in ab.node.body if isinstance(n, ast.Return)]
     ctx.check(bool(rets) and ast.unparse(rets[-1].value) == "True", "BMDP-4", ab, ab.node, "otherwise absorbing", "", "default verdict is not True")
